@@ -99,11 +99,11 @@ Held(i)     == i.sp = req.sp /\ i.ml = req.ml
 E_start(i)  == i.start => (phase = "idle" /\ ~i.rst)
 \* cfg.latched: the module documents that start_position / max_length are applied when start is pulsed
 \* (ConstantStreamGenerator); otherwise they must be held (StreamSerializer documents nothing).
-E_held(i)   == (phase # "idle" /\ ~cfg.latched) => Held(i)
+E_held(i)   == (phase # "idle" /\ ~cfg.latched /\ ~i.rst) => Held(i)
 E_req(i)    == i.start => LegalReq(cfg, [sp |-> i.sp, ml |-> i.ml])
 \* Open finding C27-first-follows-live-start-position: `first` is computed from the live start_position input.
-\* Trigger: the input differs from the latched request while a transmission is in progress; clean stimuli never do.
-KF_InputsChanged(i) == phase # "idle" /\ ~Held(i)
+\* Trigger: start_position differs from the latched request while a transmission is in progress; clean stimuli never do.
+KF_InputsChanged(i) == phase # "idle" /\ ~i.rst /\ i.sp # req.sp
 E_clean(i)  == cfg.clean => ~KF_InputsChanged(i)
 LegalInput(i) == E_start(i) /\ E_held(i) /\ E_req(i) /\ E_clean(i)
 
